@@ -36,13 +36,11 @@ Section Faults.
 
   (** OverlayFS::exists answers false only for not-found; every other error of the lookup is
       returned (the repaired behaviour) *)
-  Lemma ovl_exists_propagates top lower p s s1 s2 e :
-    run h (vp_exists (fst top) (whiteout_path top p)) s = (s1, Ok false) ->
-    run h (read_path top lower p) s1 = (s2, Err e) -> e_kind e <> ENotFound ->
+  Lemma ovl_exists_propagates top lower p s s2 e :
+    run h (read_path top lower p) s = (s2, Err e) -> e_kind e <> ENotFound ->
     run h (ovl_exists top lower p) s = (s2, Err e).
   Proof.
-    intros H1 H2 Hk. unfold ovl_exists, bind_res. rewrite run_bind, H1. cbn [negb].
-    rewrite run_bind, H2. destruct (e_kind e) eqn:E; try reflexivity. congruence.
+    intros H2 Hk. unfold ovl_exists. rewrite run_bind, H2. destruct (e_kind e) eqn:E; try reflexivity. congruence.
   Qed.
 End Faults.
 
